@@ -1,5 +1,4 @@
-import FluteModel.Lemmas.TsiFilter
-import FluteModel.Lemmas.MultiRecv
+import FluteModel.Lemmas.MultiRecvFilter
 /-
   C18 - multi-session demultiplexing, TSI filtering, session listener events.
 
@@ -81,65 +80,6 @@ theorem saturating_eq_literal {κ : Type} [DecidableEq κ] (ops : List (RefCount
 example : Disciplined (fun _ => 0) [RefCount.Op.add 1, .add 1, .remove 1, .add 2, .remove 1] := by
   simp [Disciplined, RefCount.step]
 
-/-- the filter operations of a receiver history -/
-def fops {π : Type} : List (MultiRecv.Op π) → List FOp
-  | [] => []
-  | .addListen ep tsi :: r => .add ep tsi :: fops r
-  | .removeListen ep tsi :: r => .remove ep tsi :: fops r
-  | .addAll ep :: r => .addAll ep :: fops r
-  | .removeAll ep :: r => .removeAll ep :: fops r
-  | _ :: r => fops r
-
-theorem fops_length_le {π : Type} (ops : List (MultiRecv.Op π)) : (fops ops).length ≤ ops.length := by
-  induction ops with
-  | nil => simp [fops]
-  | cons op r ih => cases op <;> simp [fops] <;> omega
-
-private theorem run_filter_aux {σ π Out : Type} (M : Machine σ π Out) (ops : List (MultiRecv.Op π))
-    (s : State σ Out) (c : Endpoint × Nat → Nat) (b : Endpoint → Nat)
-    (h : FRep s.filter c b) (hc : ∀ x, c x + (fops ops).length < 2 ^ 64)
-    (hb : ∀ x, b x + (fops ops).length < 2 ^ 64) :
-    TsiFilter.run s.filter (fops ops) = .ok (MultiRecv.run M s ops).filter := by
-  induction ops generalizing s c b with
-  | nil => rfl
-  | cons op r ih =>
-    have hctl := ctl_step M s op
-    cases op with
-    | addListen ep tsi =>
-      simp only [fops, List.length_cons] at hc hb
-      obtain ⟨f', hf', hrep'⟩ := add_frep s.filter c b ep tsi h (by have := hc (ep, tsi); omega)
-      simp only [fops, TsiFilter.run, applyOp, hf', MultiRecv.run, MultiRecv.step]
-      refine ih { s with filter := f' } (RefCount.step c (.add (ep, tsi))) b hrep' ?_ ?_
-      · intro x; have := hc x; simp only [RefCount.step]; split <;> omega
-      · intro x; have := hb x; omega
-    | removeListen ep tsi =>
-      simp only [fops, List.length_cons] at hc hb
-      simp only [fops, TsiFilter.run, applyOp, MultiRecv.run, MultiRecv.step]
-      refine ih { s with filter := remove s.filter ep tsi } (RefCount.step c (.remove (ep, tsi))) b (remove_frep s.filter c b ep tsi h) ?_ ?_
-      · intro x; have := hc x; simp only [RefCount.step]; split <;> omega
-      · intro x; have := hb x; omega
-    | addAll ep =>
-      simp only [fops, List.length_cons] at hc hb
-      obtain ⟨f', hf', hrep'⟩ := addBypass_frep s.filter c b ep h (by have := hb ep; omega)
-      simp only [fops, TsiFilter.run, applyOp, hf', MultiRecv.run, MultiRecv.step]
-      refine ih { s with filter := f' } c (RefCount.step b (.add ep)) hrep' ?_ ?_
-      · intro x; have := hc x; omega
-      · intro x; have := hb x; simp only [RefCount.step]; split <;> omega
-    | removeAll ep =>
-      simp only [fops, List.length_cons] at hc hb
-      simp only [fops, TsiFilter.run, applyOp, MultiRecv.run, MultiRecv.step]
-      refine ih { s with filter := removeEndpointBypass s.filter ep } c (RefCount.step b (.remove ep)) (removeBypass_frep s.filter c b ep h) ?_ ?_
-      · intro x; have := hc x; omega
-      · intro x; have := hb x; simp only [RefCount.step]; split <;> omega
-    | push ep p =>
-      have hf : (MultiRecv.step M s (.push ep p)).1.filter = s.filter := congrArg Ctl.filter hctl
-      simp only [fops, MultiRecv.run]
-      exact ih _ c b (by rw [hf]; exact h) hc hb |> fun e => by rw [hf] at e; exact e
-    | tick d => exact ih _ c b h hc hb
-    | cleanup now => exact ih _ c b h hc hb
-    | setFiltering x => exact ih _ c b h hc hb
-    | drop => exact ih _ c b h hc hb
-
 /-- The property's filter clause END TO END on the receiver model: after ANY receiver history (pushes, cleanups,
     ticks, filter operations, in any order) a parsable packet pushed with filtering enabled is skipped iff it is
     NOT accepted by the reference-count rule applied to the history's listen operations; otherwise it reaches
@@ -151,7 +91,7 @@ theorem processed_iff_accepted {σ π Out : Type} (M : Machine σ π Out) (ops :
   intro s
   have hl := fops_length_le ops
   have hrun : TsiFilter.run Filter.new (fops ops) = .ok s.filter :=
-    run_filter_aux M ops (State.new b) (fun _ => 0) (fun _ => 0) frep_new (by intro x; omega) (by intro x; omega)
+    run_filter M ops (State.new b) (fun _ => 0) (fun _ => 0) frep_new (by intro x; omega) (by intro x; omega)
   obtain ⟨f, hf, hacc⟩ := filter_refines_counts (fops ops) (by omega)
   rw [hrun] at hf
   have hfe : s.filter = f := by injection hf
@@ -202,16 +142,19 @@ theorem demux_same_trace {σ π Out : Type} (M : Machine σ π Out) (b b' : Bool
     localOf k (MultiRecv.run M (State.new b) ops) = localOf k (MultiRecv.run M (State.new b') ops') := by
   rw [demux_solo, demux_solo, h]
 
+private def exK1 : Key := ⟨⟨none, 1, 5000⟩, 7⟩
+private def exK2 : Key := ⟨⟨none, 2, 5000⟩, 7⟩
+private def exD : Pkt Unit := ⟨7, false, ()⟩
+private def exC : Pkt Unit := ⟨7, true, ()⟩
+private def exOps : List (MultiRecv.Op Unit) :=
+  [.push exK1.ep (some exD), .push exK2.ep (some exD), .push exK2.ep (some exD), .push exK1.ep (some exD), .push exK2.ep (some exD)]
+
 /-- non-vacuity: two sessions with EQUAL TSI on distinct endpoints, interleaved; the session of the first key ends
     with exactly its own two packets counted, whatever the other one received -/
 example :
-    let k1 : Key := ⟨⟨none, 1, 5000⟩, 7⟩
-    let k2 : Key := ⟨⟨none, 2, 5000⟩, 7⟩
-    let p : Pkt Unit := ⟨7, false, ()⟩
-    let ops : List (MultiRecv.Op Unit) := [.push k1.ep (some p), .push k2.ep (some p), .push k2.ep (some p), .push k1.ep (some p), .push k2.ep (some p)]
-    ((localOf k1 (MultiRecv.run (actMachine none) (State.new false) ops)).sess.map (·.st.n) = some 2
-      ∧ (localOf k2 (MultiRecv.run (actMachine none) (State.new false) ops)).sess.map (·.st.n) = some 3
-      ∧ ops.filter (fun op => !foreign k1 op) = [.push k1.ep (some p), .push k1.ep (some p)]) := by
+    (localOf exK1 (MultiRecv.run (actMachine none) (State.new false) exOps)).sess.map (·.st.n) = some 2
+      ∧ (localOf exK2 (MultiRecv.run (actMachine none) (State.new false) exOps)).sess.map (·.st.n) = some 3
+      ∧ (exOps.filter (fun op => !foreign exK1 op)).length = 2 := by
   decide
 
 /-! ## 3. Callbacks carry the session's own key -/
@@ -270,12 +213,6 @@ theorem listener_shape {σ π Out : Type} (M : Machine σ π Out) (b : Bool) (op
   obtain ⟨n, hn⟩ := altFrom_shape _ false _ h
   exact ⟨n, by simpa using hn⟩
 
-private theorem run_append {σ π Out : Type} (M : Machine σ π Out) (xs ys : List (MultiRecv.Op π)) (s : State σ Out) :
-    MultiRecv.run M s (xs ++ ys) = MultiRecv.run M (MultiRecv.run M s xs) ys := by
-  induction xs generalizing s with
-  | nil => rfl
-  | cons x r ih => simp [MultiRecv.run, ih]
-
 /-- After the receiver is dropped every open has been closed, for every key. -/
 theorem listener_all_closed_after_drop {σ π Out : Type} (M : Machine σ π Out) (b : Bool) (ops : List (MultiRecv.Op π)) (k : Key) :
     alt k (MultiRecv.run M (State.new b) (ops ++ [.drop])).events = some false := by
@@ -301,15 +238,15 @@ theorem session_end_is_notified {σ π Out : Type} (M : Machine σ π Out) (k : 
   · intro h; simp [localStep, h]
   · intro h; simp [localStep, h]
 
-/-- non-vacuity: open, expiry at cleanup, re-open by the next packet, close-session packet, open again, drop -/
+private def exLis : List (MultiRecv.Op Unit) :=
+  [.push exK1.ep (some exD), .tick 2, .cleanup 0, .push exK1.ep (some exD), .push exK1.ep (some exC),
+   .push exK1.ep (some exC), .push exK1.ep (some exD), .drop]
+
+/-- non-vacuity: open, expiry at cleanup, re-open by the next packet, close-session packet (a second one is
+    ignored), open again, drop -/
 example :
-    let k : Key := ⟨⟨none, 1, 5000⟩, 7⟩
-    let d : Pkt Unit := ⟨7, false, ()⟩
-    let c : Pkt Unit := ⟨7, true, ()⟩
-    let ops : List (MultiRecv.Op Unit) :=
-      [.push k.ep (some d), .tick 2, .cleanup 0, .push k.ep (some d), .push k.ep (some c), .push k.ep (some c), .push k.ep (some d), .drop]
-    (MultiRecv.run (actMachine (some 1)) (State.new false) ops).events =
-      [.opened k, .closed k, .opened k, .closed k, .opened k, .closed k] := by
+    (MultiRecv.run (actMachine (some 1)) (State.new false) exLis).events =
+      [.opened exK1, .closed exK1, .opened exK1, .closed exK1, .opened exK1, .closed exK1] := by
   decide
 
 /-! ## 5. The defect found while proving `listener_alternation` (repaired in /repo, commit 69827fb)
@@ -318,13 +255,14 @@ example :
   `retain(|_, v| !v.is_expired())`).  `is_expired` reads the clock; a session whose time-out elapses between the
   two evaluations was removed from the table without `on_session_closed`, and - being gone from the table - was not
   closed at drop either.  Witness on the pre-fix model (`PreFix.cleanup`, second evaluation `dt = 1` later): -/
+private def preS0 : State Act Unit :=
+  MultiRecv.run (actMachine (some 1)) (State.new false) [.push exK1.ep (some exD), .tick 1]
+private def preS1 : State Act Unit := PreFix.cleanup (actMachine (some 1)) preS0 0 1
+
 theorem prefix_cleanup_breaks_alternation :
-    let k : Key := ⟨⟨none, 1, 5000⟩, 7⟩
-    let M := actMachine (some 1)
-    let s0 := MultiRecv.run M (State.new false) [.push k.ep (some ⟨7, false, ()⟩), .tick 1]
-    let s1 := PreFix.cleanup M s0 0 1
     -- the session is gone, its open is still pending, and even dropping the receiver does not close it
-    (AL.get s1.table k).isSome = false ∧ alt k s1.events = some true ∧ alt k (MultiRecv.drop s1).events = some true := by
+    (AL.get preS1.table exK1).isSome = false ∧ alt exK1 preS1.events = some true
+      ∧ alt exK1 (MultiRecv.drop preS1).events = some true := by
   decide
 
 /-- with `dt = 0` (both evaluations at the same instant) the pre-fix code and the repaired code coincide -/
